@@ -31,10 +31,18 @@ type c21App struct {
 	answers map[string]int // peer key (hex) -> answer
 	log     []string       // peer keys consulted since the last reset
 	failure error
+	// position of this application's first consultation in the current
+	// validation (shared counter), -1 when not consulted
+	seq   *int
+	first int
 }
 
 func (a *c21App) IsRecognized(pk *operator.PublicKey) (bool, error) {
 	key := pk.String()
+	if len(a.log) == 0 && a.seq != nil {
+		a.first = *a.seq
+		*a.seq++
+	}
 	a.log = append(a.log, key)
 	switch a.answers[key] {
 	case c21Yes:
@@ -179,11 +187,27 @@ func TestVerif_C21_Policy(t *testing.T) {
 				}
 			}
 
+			c21Seq := 0
+			for _, a := range apps {
+				a.seq, a.first = &c21Seq, -1
+			}
 			err := policy.Validate(c21Peer(k))
 
 			// what was consulted
 			var consulted []int
 			consultedErr, consultedYes := false, false
+			firstErr, firstYes := -1, -1
+			for i, a := range apps {
+				if len(a.log) == 0 {
+					continue
+				}
+				if vec[i] == c21Err && (firstErr < 0 || a.first < firstErr) {
+					firstErr = a.first
+				}
+				if vec[i] == c21Yes && (firstYes < 0 || a.first < firstYes) {
+					firstYes = a.first
+				}
+			}
 			for i, a := range apps {
 				for _, who := range a.log {
 					if who != key {
@@ -257,6 +281,13 @@ func TestVerif_C21_Policy(t *testing.T) {
 				} else {
 					if anyYes && !consultedErr {
 						t.Fatalf("%s: peer rejected (%v) although an application recognizes it and no recognition check failed", where, err)
+					}
+					// an application had already recognized the peer when a
+					// later consultation failed: "admitted iff at least one
+					// application recognizes it" - the failed check of another
+					// application must not take the admission away
+					if firstYes >= 0 && (firstErr < 0 || firstYes < firstErr) {
+						t.Fatalf("%s: peer rejected (%v) although an application consulted before any failing one recognized it", where, err)
 					}
 				}
 				switch {
